@@ -415,7 +415,9 @@ def invocation_histories(o, tier, gen, demo):
             # the statement (rendering of a failure ...) or the defect is not one of C09
             o.note_drift({"invocation_model_vs_code": case})
             return
-        if again is None:
+        if again is None and i == 0:
+            where = "earlier pages of the context"
+        elif again is None:
             where = "the earlier invocations %r of the context" % (hist[:i],)
         elif again[i] == got[i]:
             where = "the earlier invocations %r of the SAME page (a fresh context running this page shows the same)" % (hist[:i],)
